@@ -5,8 +5,9 @@
 -/
 import SparseV.Model.Slice
 import SparseV.Spec.Slice
+import SparseV.Lemmas.Range
 namespace SparseV.C02
-open SparseV SparseV.Spec
+open SparseV SparseV.Spec SparseV.COO
 
 /-- **normalize_slice_spec.** For every axis extent `dim ≥ 0` and every slice `start:stop:step`
 (each part possibly `None`, any integers, `step ≠ 0`), the library's normalisation selects
@@ -55,5 +56,200 @@ theorem normalize_int_spec (i dim : Int) :
     normalizeInt i dim = (if -dim ≤ i ∧ i < dim then .ok (if i < 0 then i + dim else i) else .error Err.index) := by
   simp only [normalizeInt, Gen.checkIndexInt, Gen.posifyInt]
   grind
+
+/-! ## Basic indexing (integers, slices of any step, `None`) -/
+
+variable {α : Type}
+
+/-- **normalize_slice_normalised.** Whatever slice the user writes (`step ≠ 0`), the triple that
+`normalize_index` hands to `getitem` is normalised for the axis (`Spec.NormSlice`): the hypothesis
+of the theorems below is what the generated `clip_slice` establishes. -/
+theorem normalize_slice_normalised (start stop step : Option Int) (dim : Int) (hs : step ≠ some 0) :
+    NormSlice (normalizeSlice start stop step dim).1 (normalizeSlice start stop step dim).2.1
+      (normalizeSlice start stop step dim).2.2 dim :=
+  normalizeSlice_normalised start stop step dim hs
+
+/-- **slice_selection_bijection.** For a normalised slice, `t ↦ a + t*s` maps `[0, len)` into the
+axis and onto the selected coordinates, and `getitem`'s `(c - a) / s` is its inverse. -/
+theorem slice_selection_bijection (a b s dim : Int) (h : NormSlice a b s dim) :
+    (∀ t : Nat, t < sliceLen a b s →
+      0 ≤ a + (t : Int) * s ∧ a + (t : Int) * s < dim ∧ inSlice a b s (a + (t : Int) * s) = true ∧
+      (a + (t : Int) * s - a) / s = (t : Int)) ∧
+    (∀ c : Int, inSlice a b s c = true →
+      ((c - a) / s).toNat < sliceLen a b s ∧ a + (((c - a) / s).toNat : Int) * s = c) :=
+  ⟨fun t ht => slice_fwd a b s dim h t ht, fun c hc => slice_bwd a b s c hc⟩
+
+/-- **getitemN_get.** Basic indexing of a COO array (`x.WF`, distinct stored indices) with a valid
+normalised index that has at least one slice / `None`: the result is an array of shape
+`outShape idx`, with `x`'s fill value, and result element `j` is operand element `compose idx j`
+(which is inside `x.shape`).  Covers both the full-slice shortcut (`x[:, :]` returns `x`) and the
+general path, positive and negative steps (where the constructor re-sorts). -/
+theorem getitemN_get (x : COO α) (idx : List NIx) (lastEllipsis : Bool) (hwf : x.WF)
+    (hnd : (keysOf x.entries).Nodup) (hv : ValidIdx idx x.shape) (ho : hasOut idx = true) :
+    ∃ r : COO α, x.getitemN idx lastEllipsis = .arr r ∧ r.shape = outShape idx false ∧ r.fill = x.fill ∧
+      ∀ j, InB j r.shape → InB (compose idx j) x.shape ∧ r.get j = x.get (compose idx j) := by
+  rw [getitemN_eq x idx lastEllipsis (validIdx_firstArrLen idx x.shape hv)]
+  by_cases hfull : isFullIndex idx x.shape = true
+  · obtain ⟨hsh, hc⟩ := isFullIndex_spec false idx x.shape hfull
+    refine ⟨x, by simp [hfull], hsh.symm, rfl, fun j hj => ?_⟩
+    rw [hc j (InB_length hj)]
+    exact ⟨hj, rfl⟩
+  · simp only [hfull, ho, if_true]
+    refine ⟨_, rfl, rfl, rfl, fun j hj => ?_⟩
+    simp only at hj
+    obtain ⟨hout, hin⟩ := compose_outOf 0 false idx x.shape j hv hj
+    refine ⟨hin, ?_⟩
+    have hinv : ∀ e ∈ x.entries, ∀ j', outOf 0 idx e.1 false = some j' → compose idx j' = e.1 :=
+      fun e he j' hj' => (outOf_compose 0 false idx x.shape e.1 j' hv (hwf e he) hj').1
+    simp only [COO.get]
+    cases hasNegStep idx with
+    | true => exact rewrite_sort_lookup _ x.entries x.fill _ (compose idx) j hnd hinv hout
+    | false => exact rewrite_lookup x.entries x.fill (fun c => outOf 0 idx c false) (compose idx) j hinv hout
+
+/-- **getitemN_scalar.** An all-integer valid index (no trailing `...`) returns the scalar
+`x[compose idx []]`, i.e. the element at the given integers. -/
+theorem getitemN_scalar (x : COO α) (idx : List NIx) (hwf : x.WF) (hv : ValidIdx idx x.shape)
+    (ho : hasOut idx = false) :
+    x.getitemN idx false = .scalar (x.get (compose idx [])) ∧ InB (compose idx []) x.shape := by
+  obtain ⟨hin, hlk, hkeys⟩ := scalar_sel x idx hwf hv ho
+  refine ⟨?_, hin⟩
+  rw [getitemN_eq x idx false (validIdx_firstArrLen idx x.shape hv)]
+  simp only [isFullIndex_of_not_hasOut idx x.shape ho, ho, Bool.false_eq_true, if_false]
+  rw [← hlk]
+  cases hsel : rewrite (fun c => outOf 0 idx c false) x.entries with
+  | nil => simp
+  | cons e es =>
+    have : e.1 = [] := hkeys e (by rw [hsel]; exact List.mem_cons_self)
+    simp [lookup_cons, this]
+
+/-- **getitemN_scalar0d.** An all-integer valid index written with an Ellipsis (`x[1, 2, ...]`)
+returns a 0-d array holding that element, with `x`'s fill value. -/
+theorem getitemN_scalar0d (x : COO α) (idx : List NIx) (hwf : x.WF) (hv : ValidIdx idx x.shape)
+    (ho : hasOut idx = false) :
+    ∃ r : COO α, x.getitemN idx true = .arr r ∧ r.shape = [] ∧ r.fill = x.fill ∧
+      r.get [] = x.get (compose idx []) ∧ InB (compose idx []) x.shape := by
+  obtain ⟨hin, hlk, _⟩ := scalar_sel x idx hwf hv ho
+  rw [getitemN_eq x idx true (validIdx_firstArrLen idx x.shape hv)]
+  simp only [isFullIndex_of_not_hasOut idx x.shape ho, ho, Bool.false_eq_true, if_false, if_true]
+  exact ⟨_, rfl, rfl, rfl, hlk, hin⟩
+
+/-- **getitem_sorted_promise.** `COO.getitem` passes `sorted=True` to the constructor when no step
+is negative.  The promise is justified: whenever `getitemN` returns an array for a valid basic
+index with no negative step, its entries, in storage order, are strictly increasing in the
+row-major order of the result shape, provided `x`'s entries are. -/
+theorem getitem_sorted_promise (x : COO α) (idx : List NIx) (lastEllipsis : Bool) (hwf : x.WF)
+    (hv : ValidIdx idx x.shape) (hneg : hasNegStep idx = false) (hs : SortedLin x.shape x.entries)
+    (r : COO α) (hr : x.getitemN idx lastEllipsis = .arr r) : SortedLin r.shape r.entries := by
+  rw [getitemN_eq x idx lastEllipsis (validIdx_firstArrLen idx x.shape hv)] at hr
+  have hsel := rewrite_outOf_sortedLin x idx 0 false hwf hv hneg hs
+  by_cases hfull : isFullIndex idx x.shape = true
+  · simp only [hfull, if_true, GetResult.arr.injEq] at hr
+    subst hr; exact hs
+  · simp only [hfull, Bool.false_eq_true, if_false, hneg] at hr
+    cases ho : hasOut idx with
+    | true =>
+      simp only [ho, if_true, GetResult.arr.injEq] at hr
+      subst hr; exact hsel
+    | false =>
+      rw [outShape_of_not_hasOut false idx ho] at hsel
+      simp only [ho, Bool.false_eq_true, if_false] at hr
+      cases lastEllipsis with
+      | true =>
+        simp only [if_true, GetResult.arr.injEq] at hr
+        subst hr; exact hsel
+      | false =>
+        simp only [Bool.false_eq_true, if_false] at hr
+        split at hr <;> cases hr
+
+/-- **normalize_index_valid.** For a user index made of integers, slices (step ≠ 0) and `None`,
+whatever `normalize_index` returns is valid for the shape (`Spec.ValidIdx`): the validity
+hypothesis of the theorems above is established by the library's own normalisation. -/
+theorem normalize_index_valid (idx : List IxE) (shape : List Nat) (n : List NIx)
+    (hb : ∀ e ∈ idx, BasicIxE e) (h : normalizeIndex idx shape = .ok n) : ValidIdx n shape :=
+  normalizeIndex_validIdx idx shape n hb h
+
+/-- **getitem_basic.** End to end: if `x[idx]` succeeds for a basic user index, then with `n` the
+normalised index, the result is an array reading `x` through `compose n` (some slice / `None`
+present) or the scalar `x[compose n []]` (all integers). -/
+theorem getitem_basic (x : COO α) (idx : List IxE) (res : GetResult α) (hwf : x.WF)
+    (hnd : (keysOf x.entries).Nodup) (hb : ∀ e ∈ idx, BasicIxE e) (h : x.getitem idx = .ok res) :
+    ∃ n, normalizeIndex idx x.shape = .ok n ∧ ValidIdx n x.shape ∧
+      (hasOut n = true → ∃ r : COO α, res = .arr r ∧ r.shape = outShape n false ∧ r.fill = x.fill ∧
+        ∀ j, InB j r.shape → InB (compose n j) x.shape ∧ r.get j = x.get (compose n j)) ∧
+      (hasOut n = false → res = .scalar (x.get (compose n [])) ∧ InB (compose n []) x.shape) := by
+  have hle : idx.any IxE.isEllipsis = false := by
+    rw [List.any_eq_false]
+    intro e he
+    have := hb e he
+    cases e <;> simp_all [BasicIxE, IxE.isEllipsis]
+  unfold getitem at h
+  cases hn : normalizeIndex idx x.shape with
+  | error er => simp [hn, bind, Except.bind] at h
+  | ok n =>
+    simp only [hn, hle, bind, Except.bind, pure, Except.pure, Except.ok.injEq] at h
+    subst h
+    have hv := normalizeIndex_validIdx idx x.shape n hb hn
+    refine ⟨n, rfl, hv, fun ho => ?_, fun ho => ?_⟩
+    · exact getitemN_get x n false hwf hnd hv ho
+    · exact getitemN_scalar x n hwf hv ho
+
+/-! ### non-vacuity -/
+
+/-- a 2×4 array with three stored entries -/
+def exB : COO Int := { shape := [2, 4], entries := [([0, 1], 5), ([1, 1], 7), ([1, 3], 9)], fill := 0 }
+
+/-- `x[1, ::-2]`: the normalised index is `[1, 3:-1:-2]`; the hypotheses of `getitemN_get` hold -/
+example :
+    (match normalizeIndex [.int 1, .slice none none (some (-2))] exB.shape with
+      | .ok r => decide (r = [.int 1, .slice 3 (-1) (-2)]) | _ => false) = true ∧
+    exB.WF ∧ (keysOf exB.entries).Nodup ∧ ValidIdx [.int 1, .slice 3 (-1) (-2)] exB.shape ∧
+    hasOut [.int 1, .slice 3 (-1) (-2)] = true ∧ hasNegStep [.int 1, .slice 3 (-1) (-2)] = true ∧
+    isFullIndex [.int 1, .slice 3 (-1) (-2)] exB.shape = false ∧
+    outShape [.int 1, .slice 3 (-1) (-2)] false = [2] ∧
+    compose [.int 1, .slice 3 (-1) (-2)] [0] = [1, 3] ∧ compose [.int 1, .slice 3 (-1) (-2)] [1] = [1, 1] ∧
+    exB.get [1, 3] = 9 ∧ exB.get [1, 1] = 7 := by decide
+
+/-- … and the theorem then yields the values of `x[1, ::-2] = [9, 7]` (through the re-sort) -/
+example : ∃ r : COO Int, exB.getitemN [.int 1, .slice 3 (-1) (-2)] false = .arr r ∧ r.shape = [2] ∧
+    r.get [0] = 9 ∧ r.get [1] = 7 := by
+  obtain ⟨r, hr, hsh, _, hget⟩ :=
+    getitemN_get exB [.int 1, .slice 3 (-1) (-2)] false (by decide) (by decide) (by decide) (by decide)
+  have hsh' : r.shape = [2] := by rw [hsh]; decide
+  refine ⟨r, hr, hsh', ?_, ?_⟩
+  · rw [(hget [0] (by rw [hsh']; decide)).2]; decide
+  · rw [(hget [1] (by rw [hsh']; decide)).2]; decide
+
+/-- the user-level statement on `x[1, ::-2]`: the index is basic and `getitem` succeeds -/
+example : (∀ e ∈ [IxE.int 1, IxE.slice none none (some (-2))], BasicIxE e) ∧
+    (match exB.getitem [.int 1, .slice none none (some (-2))] with | .ok _ => true | _ => false) = true := by
+  refine ⟨by decide, ?_⟩
+  have hn : normalizeIndex [.int 1, .slice none none (some (-2))] exB.shape = .ok [.int 1, .slice 3 (-1) (-2)] := by
+    cases h : normalizeIndex [.int 1, .slice none none (some (-2))] exB.shape with
+    | ok r =>
+      have : (match normalizeIndex [.int 1, .slice none none (some (-2))] exB.shape with
+        | .ok r => decide (r = [.int 1, .slice 3 (-1) (-2)]) | _ => false) = true := by decide
+      rw [h] at this
+      simpa using this
+    | error er =>
+      have : (match normalizeIndex [.int 1, .slice none none (some (-2))] exB.shape with
+        | .ok r => decide (r = [.int 1, .slice 3 (-1) (-2)]) | _ => false) = true := by decide
+      rw [h] at this
+      cases this
+  simp [getitem, hn, bind, Except.bind, pure, Except.pure]
+
+/-- `x[None, 0:2, 1::2]` (positive steps, a `None`): valid, sorted promise applies, and evaluates -/
+example :
+    ValidIdx [.newaxis, .slice 0 2 1, .slice 1 4 2] exB.shape ∧
+    hasNegStep [.newaxis, .slice 0 2 1, .slice 1 4 2] = false ∧
+    (lin exB.shape exB.entries).Pairwise (· < ·) ∧  -- `SortedLin exB.shape exB.entries`
+    (match exB.getitemN [.newaxis, .slice 0 2 1, .slice 1 4 2] false with
+      | .arr r => decide (r.shape = [1, 2, 2] ∧ r.entries = [([0, 0, 0], 5), ([0, 1, 0], 7), ([0, 1, 1], 9)])
+      | _ => false) = true := by decide
+
+/-- `x[1, 3]` (all integers): a scalar -/
+example : ValidIdx [.int 1, .int 3] exB.shape ∧ hasOut [.int 1, .int 3] = false ∧
+    compose [.int 1, .int 3] [] = [1, 3] ∧
+    (match exB.getitemN [.int 1, .int 3] false with | .scalar v => decide (v = 9) | _ => false) = true := by
+  decide
 
 end SparseV.C02
